@@ -210,6 +210,10 @@ def handle (ts : List String) : Option String :=
   | ["lcrand", _, n] => do
       let n ← n.toNat?
       pure (joinNats (randomSeq randomInit n))
+  | "lcrand" :: _ :: n :: texts => do
+      -- an apply context created on a buffer that shaped `texts` before (recycled after each)
+      let n ← n.toNat?
+      pure (joinNats (randomSeq (applyCtxRandomInit texts.length) n))
   | _ => none
 
 end RbModel.Drv.Lifecycle
